@@ -53,6 +53,8 @@ type caseData struct {
 	Limit    uint64 `json:"limit"`
 	LimitHow string `json:"limit_how"`
 	Ops      []op   `json:"ops"`
+	// Blind: the values are only read after the last step (presence is probed with PTTL, which is not an access).
+	Blind bool `json:"blind"`
 }
 
 var vals = []string{"v", "value-with-some-length", "x", "a-considerably-longer-value-............................................"}
@@ -185,6 +187,7 @@ func runCase(t *rapid.T, replay *caseData) {
 		cd = *replay
 	} else {
 		cd.Policy = rapid.SampledFrom(policies).Draw(t, "policy")
+		cd.Blind = rapid.IntRange(0, 1).Draw(t, "blind") == 1
 		cd.Ops = genOps(t)
 		limitAt := -1
 		if n := len(cd.Ops); n > 0 && cd.Ops[n-1].Cmd[0] == "\x00limit-at" {
@@ -465,6 +468,12 @@ func runCase(t *rapid.T, replay *caseData) {
 		}
 		// survivors read exactly as on the reference twin (keys that the reads of this very comparison
 		// get evicted are judged in the next step)
+		// Reading the values is an access: it changes the bookkeeping the policies decide by (and repairs stale
+		// bookkeeping before the pressure can meet it). Half of the cases therefore compare the survivors after every
+		// step, the other half only after the last one.
+		if cd.Blind && i != len(cd.Ops)-1 {
+			continue
+		}
 		ds, dr := s.TakeDigest(dbs, obsKeys), ref.TakeDigest(dbs, obsKeys)
 		waitIdle()
 		still := present(s)
